@@ -130,6 +130,11 @@ loop:
 func (self *Interpreter) whileStatement(node ast.AnalyzedWhileStatement) *value.Interrupt {
 loop:
 	for {
+		// The loop must not depend on its condition or body to notice a cancelation.
+		if i := self.checkCancelation(node.Span()); i != nil {
+			return i
+		}
+
 		// analyze expression
 		condition, i := self.expression(node.Condition)
 		if i != nil {
@@ -189,6 +194,11 @@ func (self *Interpreter) forStatement(node ast.AnalyzedForStatement) *value.Inte
 
 loop:
 	for {
+		// An empty body contains no statement or expression which would check this.
+		if i := self.checkCancelation(node.Span()); i != nil {
+			return i
+		}
+
 		// loop control
 		currIterVar, shouldContinue := iterator()
 		if !shouldContinue {
